@@ -5,7 +5,6 @@ package c04
 import (
 	"bytes"
 	"fmt"
-	"os"
 	"testing"
 
 	"pgregory.net/rapid"
@@ -39,7 +38,7 @@ var kinds = []string{
 	"polka", "polka", "polka", "polka", "pcmaj", "pcmaj",
 	"own", "ownall", "ownall", "ownall", "ownall",
 	"timeout", "timeout", "timeout", "start", "start",
-	"badvote", "parts", "lock", "lock", "lock", "lock", "nextround", "nextround", "nextround",
+	"badvote", "parts", "lock", "lock", "lock", "lock", "nextround", "nextround", "nextround", "stalepolka", "stalepolka",
 }
 
 func genCase(t *rapid.T) Case {
@@ -123,11 +122,8 @@ func mod(a, n int) int {
 }
 
 func runCase(c Case, x *h.Ctx) {
-	dir, err := os.MkdirTemp("", "c04-")
-	if err != nil {
-		panic(err)
-	}
-	defer os.RemoveAll(dir)
+	dir, doneDir := sim.TempDir("c04-")
+	defer doneDir()
 	byz := make([]bool, len(c.Powers))
 	for i := range byz {
 		byz[i] = i != c.Subject
@@ -445,6 +441,39 @@ func runCase(c Case, x *h.Ctx) {
 			}
 			if op.C%2 == 0 {
 				ownAll()
+			}
+		case "stalepolka":
+			// scripted attack shape: while the subject is locked, a polka for ANOTHER block at a round
+			// not later than the lock round arrives late (stale votes of an old round); afterwards the
+			// subject is moved on so that its next prevote shows whether it kept the lock
+			if rs.LockedBlock == nil {
+				continue
+			}
+			other, ok := types.BlockID{}, false
+			for i := len(known) - 1; i >= 0; i-- {
+				if !bytes.Equal(known[i].Hash, rs.LockedBlock.Hash()) {
+					other, ok = known[i], true
+					break
+				}
+			}
+			if !ok && op.B%2 == 0 {
+				other, ok = types.BlockID{Hash: []byte("another-block-id-000"), PartsHeader: types.PartSetHeader{Total: 1, Hash: []byte("another-parts-hash-00")}}, true
+			}
+			if !ok {
+				// nil polka of an old round
+				ok = true
+			}
+			staleRound := rs.LockedRound - int64(mod(op.A, 2))
+			if staleRound < 0 {
+				staleRound = 0
+			}
+			for _, p := range puppets {
+				if sub.RS().Height != rs.Height {
+					break
+				}
+				if _, val := rs.Validators.GetByAddress(net.Nodes[p].Addr); val != nil {
+					deliverVote(sim.SignVote(p, rs.Validators, rs.Height, staleRound, types.VoteTypePrevote, other), true)
+				}
 			}
 		case "nextround":
 			// move the subject to the next round: a precommit majority for nil (or mixed) at its round
